@@ -1199,6 +1199,17 @@ class Executor:
         if n1 in ("sadd", "ssub", "smul", "uadd", "usub", "umul") and base[2] == "with":
             r, ov = d.with_overflow(n1, args[0], args[1])
             return [r, ov]
+        if n1 in ("sadd", "ssub", "uadd", "usub") and base[2] == "sat":
+            a, b = args
+            n = a.bits
+            r, ov = d.with_overflow(n1, a, b)
+            if n1[0] == "u":
+                lim = IV(n, c=mask(n) if n1 == "uadd" else 0)
+            else:
+                # saturate toward the sign of the exact result: positive overflow iff a >= 0 (add) / a >= 0 (sub)
+                neg = d.icmp("slt", a, IV(n, c=0))
+                lim = d.select(neg, IV(n, c=1 << (n - 1)), IV(n, c=(1 << (n - 1)) - 1))
+            return d.select(ov, lim, r)
         if n1 in ("ctlz", "cttz"):
             a = args[0]
             zero_poison = args[1]
